@@ -545,6 +545,7 @@ class LifetimeCtx:
             ctx._cur_save = step
             ctx.pending_state[step] = st
             SIM.forget(step)
+            SIM.cur_step = step
             SIM.in_save = True
             try:
                 o_save(step)
